@@ -9,37 +9,39 @@ import EphVerif.Model.Ttl
 namespace EphVerif.C02L
 open EphVerif.Gen.C02
 
+/-- replace every generated constant by its value (whichever of them occur) -/
+macro "gen_consts" : tactic =>
+  `(tactic| try simp only [kMinKeyRotationInterval, kMaxKeyRotationInterval, kMinAllowedManifestTtl, kMaxAllowedManifestTtl,
+      kMinAnnounceInterval, kMaxAnnounceWindow, kMaxAnnouncePowDifficulty, kMaxHandshakePowDifficulty, kMaxStorePowDifficulty,
+      kMinimumTtl] at *)
+
 theorem rotation_range (v : Int) :
     5 ≤ sanitize_key_rotation_interval v ∧ sanitize_key_rotation_interval v ≤ 3600 := by
-  unfold sanitize_key_rotation_interval kMinKeyRotationInterval kMaxKeyRotationInterval
+  unfold sanitize_key_rotation_interval
+  gen_consts
   grind
 
 theorem manifest_min_range (v : Int) : 1 ≤ sanitize_manifest_min v ∧ sanitize_manifest_min v ≤ 86400 := by
-  unfold sanitize_manifest_min kMinAllowedManifestTtl kMaxAllowedManifestTtl
+  unfold sanitize_manifest_min
+  gen_consts
   grind
 
 theorem manifest_max_range (v mn : Int) (h1 : 1 ≤ mn) (h2 : mn ≤ 86400) :
     mn ≤ sanitize_manifest_max v mn ∧ sanitize_manifest_max v mn ≤ 86400 := by
-  unfold sanitize_manifest_max kMinAllowedManifestTtl kMaxAllowedManifestTtl
-  grind
-
-theorem announce_interval_range (v : Int) : 1 ≤ sanitize_announce_interval v := by
-  unfold sanitize_announce_interval kMinAnnounceInterval
-  grind
-
-theorem announce_window_range (v : Int) :
-    1 ≤ sanitize_announce_window v ∧ sanitize_announce_window v ≤ 3600 := by
-  unfold sanitize_announce_window kMinAnnounceInterval kMaxAnnounceWindow
+  unfold sanitize_manifest_max
+  gen_consts
   grind
 
 theorem clamp_range (ttl mn mx : Int) (h1 : 1 ≤ mn) (h2 : mn ≤ mx) :
     mn ≤ clamp_chunk_ttl ttl mn mx ∧ clamp_chunk_ttl ttl mn mx ≤ mx := by
-  unfold clamp_chunk_ttl kMinAllowedManifestTtl
+  unfold clamp_chunk_ttl
+  gen_consts
   grind
 
 theorem clamp_id (ttl mn mx : Int) (h1 : 1 ≤ mn) (h2 : mn ≤ ttl) (h3 : ttl ≤ mx) :
     clamp_chunk_ttl ttl mn mx = ttl := by
-  unfold clamp_chunk_ttl kMinAllowedManifestTtl
+  unfold clamp_chunk_ttl
+  gen_consts
   grind
 
 /-- the TTL window of a configuration (what `sanitize_config` establishes) -/
@@ -63,7 +65,8 @@ theorem store_ttl_range (c : Cfg) (w : Window c) (ttl : Int) :
 
 /-- `ChunkStore::put`'s own floor (and default fallback) is the identity on a TTL ≥ 1 s -/
 theorem put_id (c : Cfg) (d : Int) (h : 1 ≤ d) : chunkstore_put_ttl d c = d := by
-  unfold chunkstore_put_ttl kMinimumTtl
+  unfold chunkstore_put_ttl
+  gen_consts
   grind
 
 end EphVerif.C02L
